@@ -1,0 +1,110 @@
+//go:build verif
+
+// Contracts for package main (comment-only; read by /verif/vcgo, build tag verif).
+package main
+
+// ---- C09: lock discipline of the epoch set (ghost held(m.mu): 0 none, 1 read, 2 write) ----
+
+//@ func (*MultiEpoch) GetEpoch
+//@   requires held(m.mu) == 0
+//@   ensures held(m.mu) == 0
+//@   noframe
+
+//@ func (*MultiEpoch) HasEpoch
+//@   requires held(m.mu) == 0
+//@   ensures held(m.mu) == 0
+//@   noframe
+
+//@ func (*MultiEpoch) AddEpoch
+//@   requires held(m.mu) == 0 && m.epochs != nil
+//@   ensures held(m.mu) == 0
+//@   noframe
+
+//@ func (*MultiEpoch) RemoveEpoch
+//@   requires held(m.mu) == 0
+//@   ensures held(m.mu) == 0
+//@   noframe
+
+//@ func (*MultiEpoch) RemoveEpochByConfigFilepath
+//@   requires held(m.mu) == 0
+//@   ensures held(m.mu) == 0
+//@   noframe
+
+//@ func (*MultiEpoch) ReplaceEpoch
+//@   requires held(m.mu) == 0 && m.epochs != nil
+//@   ensures held(m.mu) == 0
+//@   noframe
+
+//@ func (*MultiEpoch) ReplaceOrAddEpoch
+//@   requires held(m.mu) == 0 && m.epochs != nil
+//@   ensures held(m.mu) == 0
+//@   noframe
+
+//@ func (*MultiEpoch) HasEpochWithSameHashAsFile
+//@   requires held(m.mu) == 0
+//@   ensures held(m.mu) == 0
+//@   noframe
+
+//@ func (*MultiEpoch) CountEpochs
+//@   requires held(m.mu) == 0
+//@   ensures held(m.mu) == 0
+//@   noframe
+
+//@ func (*MultiEpoch) GetEpochNumbers
+//@   requires held(m.mu) == 0
+//@   ensures held(m.mu) == 0
+//@   noframe
+//@   ensures forall i, j int :: 0 <= i && i < j && j < len(result) ==> result[i] >= result[j]
+//@   ensures forall i, j int :: 0 <= i && i < j && j < len(result) ==> result[i] != result[j]
+
+//@ func (*MultiEpoch) GetMostRecentAvailableEpoch
+//@   requires held(m.mu) == 0
+//@   ensures held(m.mu) == 0
+//@   noframe
+
+//@ func (*MultiEpoch) GetOldestAvailableEpoch
+//@   requires held(m.mu) == 0
+//@   ensures held(m.mu) == 0
+//@   noframe
+
+//@ func (*MultiEpoch) GetFirstAvailableBlock
+//@   requires held(m.mu) == 0
+//@   ensures held(m.mu) == 0
+//@   noframe
+
+//@ func (*MultiEpoch) GetMostRecentAvailableBlock
+//@   requires held(m.mu) == 0
+//@   ensures held(m.mu) == 0
+//@   noframe
+
+//@ func (*MultiEpoch) GetMostRecentAvailableEpochNumber
+//@   requires held(m.mu) == 0
+//@   ensures held(m.mu) == 0
+//@   noframe
+
+//@ func (*MultiEpoch) Close
+//@   requires held(m.mu) == 0
+//@   ensures held(m.mu) == 0
+//@   noframe
+
+//@ func (*MultiEpoch) epochNumbersLocked
+//@   requires held(m.mu) >= 1
+//@   ensures held(m.mu) == old(held(m.mu))
+//@   noframe
+//@   ensures forall i, j int :: 0 <= i && i < j && j < len(result) ==> result[i] >= result[j]
+//@   ensures forall i, j int :: 0 <= i && i < j && j < len(result) ==> result[i] != result[j]
+//@   loop 0 invariant forall a, b int :: 0 <= a && a < b && b < len(epochNumbers) ==> epochNumbers[a] != epochNumbers[b]
+//@   loop 0 invariant forall a int :: 0 <= a && a < len(epochNumbers) ==> visited0(epochNumbers[a])
+
+// helpers called while the epoch-set lock is held: they must not touch it (checked: lock-balanced, lock-call)
+
+//@ func (*Epoch) Close
+//@   modifies all
+//@   noframe
+
+//@ func (*Config) ConfigFilepath
+//@   noframe
+
+//@ func (*Config) IsSameHashAsFile
+//@   modifies all
+//@   noframe
